@@ -206,5 +206,28 @@ theorem by_delegator_misses_deleted_asset :
     qUnbondingsByDelegator exDeleted 10 = [] ∧ qUnbondingsByDenomAndDelegator exDeleted 0 10 = [(0, 100, 0, 5)] := by
   decide
 
+/-! ## exactness as a list equality -/
+
+/-- in a state where index and queue agree, `GetUnbondings(denom, delegator, validator)` returns EXACTLY what a direct scan
+    of the queue by the filter returns (`specUnbondings`: the delegator's buckets in completion order, within a bucket the
+    entries of that validator and denom in bucket order): every pending entry once, nothing else, with its own amount and
+    completion time (proof: AllianceProofs/QueryExact — the completion times reached through the index are the completion
+    times of the delegator's buckets holding a match, as strictly sorted lists with the same members) -/
+theorem unbondings_query_is_exact (w : World) (hix : IX w) (d : Denom) (del : Acct) (v : ValId) :
+    qUnbondings w d del v = specUnbondings w d del v := qUnbondings_exact w hix d del v
+
+/-- … in every state of every history -/
+theorem unbondings_query_is_exact_in_every_history (w0 w : World) (h0 : IX w0) (hr : ReachU w0 w) (d : Denom) (del : Acct)
+    (v : ValId) : qUnbondings w d del v = specUnbondings w d del v := qUnbondings_exact w (reach_ix w0 w h0 hr) d del v
+
+/-- non-vacuity: two buckets of delegator 10, three entries of which two match (validator 0, denom 0) -/
+example :
+    let w : World := { (default : World) with
+      undelQueue := [((100, 10), [{ del := 10, val := 0, denom := 0, amount := 5 }, { del := 10, val := 1, denom := 0, amount := 6 }]),
+                     ((200, 10), [{ del := 10, val := 0, denom := 0, amount := 7 }])]
+      undelIndex := [(0, 100, 0, 10), (0, 200, 0, 10), (1, 100, 0, 10)] }
+    qUnbondings w 0 10 0 = [(0, 100, 0, 5), (0, 200, 0, 7)] ∧ specUnbondings w 0 10 0 = [(0, 100, 0, 5), (0, 200, 0, 7)] := by
+  decide
+
 end C20
 end Alliance
